@@ -6,9 +6,11 @@ import U3.Lemmas.Retry
 All statements are about `U3.Retry.runAttempts cfg r m script` — one `urlopen(method, url,
 retries=r)` call with its recursive calls, the network deciding the outcome of every attempt — for
 **every** `Retry` value `r` (any counters, also negative / `False`), every method string, every
-outcome script of any length, and both kinds of pool (`cfg.proxied`).  The only restricted
-statement is `C04_nonidempotent_not_resent_partial` (direct pools); its negation for proxied pools
-is proved as `C04_proxied_reset_resends_post` (known finding).
+outcome script of any length, and both kinds of pool (`cfg.proxied`).  No statement is restricted:
+the former finding `proxy-read-reset-relabelled-proxyerror` is repaired in the code
+(`HTTPConnection.getresponse` keeps `has_connected_to_proxy` across the `close()` that `http.client`
+performs on `ConnectionError`), `C04_nonidempotent_not_resent` holds for direct and proxied pools
+alike, and the former negation witness is now the positive `C04_proxied_reset_not_resent`.
 -/
 namespace U3.Props
 open U3 U3.Retry
@@ -95,25 +97,32 @@ theorem C04_direct_classification (o : Outcome) :
   | otherError => rfl
   | response st ra => rfl
 
-/-- behind a proxy a reset / EOF while reading is charged to `other`, not to `read` (the root of the
-known finding): `http.client` has closed the connection, `has_connected_to_proxy` reads `False`,
-the error is wrapped as `ProxyError`, which is neither a connect nor a read error -/
-theorem C04_proxied_reset_charged_other :
-    chargedTo ⟨true⟩ (.readError .reset) = some .other ∧ chargedTo ⟨true⟩ (.readError .eof) = some .other ∧
+/-- behind a proxy every kind of read error is charged to `read`, exactly as on a direct pool, and a
+failure to reach the proxy is still a connect error (the former finding
+`proxy-read-reset-relabelled-proxyerror`: reset / EOF used to be wrapped as `ProxyError` and
+charged to `other`) -/
+theorem C04_proxied_classification (o : Outcome) :
+    chargedTo ⟨true⟩ o = chargedTo ⟨false⟩ o := by
+  cases o with
+  | connectError k => cases k <;> rfl
+  | readError k => cases k <;> rfl
+  | otherError => rfl
+  | response st ra => rfl
+
+/-- the four read errors behind a proxy, spelled out (positive counterpart of the former
+`C04_proxied_reset_charged_other`) -/
+theorem C04_proxied_reset_charged_read :
+    chargedTo ⟨true⟩ (.readError .reset) = some .read ∧ chargedTo ⟨true⟩ (.readError .eof) = some .read ∧
     chargedTo ⟨true⟩ (.readError .timeout) = some .read ∧ chargedTo ⟨true⟩ (.readError .garbage) = some .read := by
   decide
 
 /-! ## non-idempotent requests -/
 
--- Full statement (Appendix E), **false** for proxied pools — see `C04_proxied_reset_resends_post`:
---   thm C04_nonidempotent_not_resent (cfg) (hm : r.isMethodRetryable m = false) (i) (a)
---       (hi : (runAttempts cfg r m script).attempts[i]? = some a) (ho : reachedServer a.outcome) :
---       (runAttempts cfg r m script).attempts.length = i + 1
--- Missing part: `cfg.proxied = true` with a `readError .reset` / `readError .eof` attempt.
-
-/-- direct pools: a method outside `allowed_methods` is never sent again after an attempt that ended
-in a read error or in a response — that attempt is the last one -/
-theorem C04_nonidempotent_not_resent_partial (cfg : Cfg) (hcfg : cfg.proxied = false) (r : Retry) (m : Str)
+/-- direct and proxied pools: a method outside `allowed_methods` is never sent again after an
+attempt that ended in a read error or in a response — that attempt is the last one.  (Full
+statement of Appendix E; until the repair of `proxy-read-reset-relabelled-proxyerror` it was
+proved only under `cfg.proxied = false`.) -/
+theorem C04_nonidempotent_not_resent (cfg : Cfg) (r : Retry) (m : Str)
     (script : List Outcome) (hm : r.isMethodRetryable m = false) (i : Nat) (a : Attempt)
     (hi : (runAttempts cfg r m script).attempts[i]? = some a) (ho : reachedServer a.outcome = true) :
     (runAttempts cfg r m script).attempts.length = i + 1 := by
@@ -145,8 +154,7 @@ theorem C04_nonidempotent_not_resent_partial (cfg : Cfg) (hcfg : cfg.proxied = f
           simp at hw
         | readError k =>
           have hcat : errCat (translate cfg (.readError k)) = .read := by
-            cases cfg; simp only at hcfg; subst hcfg
-            cases k <;> rfl
+            cases cfg with | mk p => cases p <;> cases k <;> rfl
           obtain ⟨-, hx⟩ := herr _ rfl
           obtain ⟨mm, hmm, hret⟩ := hx hcat
           cases hmm
@@ -160,19 +168,35 @@ theorem C04_nonidempotent_not_resent_partial (cfg : Cfg) (hcfg : cfg.proxied = f
 
 example : (Retry.ofTotal (.num 3)).isMethodRetryable POST = false := by decide
 
-/-- concrete failing script for the proxied model (known finding
-`proxy-read-reset-relabelled-proxyerror`): `Retry(3)`, POST, first attempt reset while reading —
-the request is put on the wire a second time; on a direct pool the same script stops after one -/
-theorem C04_proxied_reset_resends_post :
+example : (runAttempts ⟨true⟩ (Retry.ofTotal (.num 3)) POST [.readError .reset, .response 200 none]).attempts[0]? =
+    some ⟨.readError .reset, none⟩ := by decide
+
+/-- the script of the former finding `proxy-read-reset-relabelled-proxyerror` (`Retry(3)`, POST,
+first attempt reset — or EOF — while reading), now with the expected outcome: behind a proxy, as
+on a direct pool, the request goes on the wire once and `ProtocolError` is re-raised -/
+theorem C04_proxied_reset_not_resent :
     (Retry.ofTotal (.num 3)).isMethodRetryable POST = false ∧
     (runAttempts ⟨true⟩ (Retry.ofTotal (.num 3)) POST [.readError .reset, .response 200 none]).outcomes
-      = [.readError .reset, .response 200 none] ∧
+      = [.readError .reset] ∧
     (runAttempts ⟨true⟩ (Retry.ofTotal (.num 3)) POST [.readError .reset, .response 200 none]).result
-      = .response 200 ∧
+      = .reraised (.plain .protocol) ∧
+    (runAttempts ⟨true⟩ (Retry.ofTotal (.num 3)) POST [.readError .eof, .response 200 none]).outcomes
+      = [.readError .eof] ∧
+    (runAttempts ⟨true⟩ (Retry.ofTotal (.num 3)) POST [.readError .eof, .response 200 none]).result
+      = .reraised (.plain .protocol) ∧
     (runAttempts ⟨false⟩ (Retry.ofTotal (.num 3)) POST [.readError .reset, .response 200 none]).outcomes
       = [.readError .reset] ∧
     (runAttempts ⟨false⟩ (Retry.ofTotal (.num 3)) POST [.readError .reset, .response 200 none]).result
       = .reraised (.plain .protocol) := by
+  decide
+
+/-- second symptom of the former finding (`…/read-budget`): `Retry(read=0)` stops a GET from being
+retried after a reset behind a proxy -/
+theorem C04_proxied_reset_read_budget :
+    (runAttempts ⟨true⟩ { Retry.default with read := .num 0 } GET [.readError .reset, .response 200 none]).outcomes
+      = [.readError .reset] ∧
+    (runAttempts ⟨true⟩ { Retry.default with read := .num 0 } GET [.readError .reset, .response 200 none]).result
+      = .maxRetry (.error (.plain .protocol)) := by
   decide
 
 /-! ## retries=False -/
